@@ -33,6 +33,14 @@ def cases(tier, seed):
         yield ('S', m)
     for m in rt.collision_models():
         yield ('K', m)
+    F, R, M = sh.F, sh.R, sh.M
+    for first, second in (('Bb', 'Bb.att'), ('Bb.att', 'Bb'), ('Bb', 'att'), ('Fa', 'Fa.att')):
+        kids = [R(0, 1, [F(first, attrs=[('att', sh.freeze(3))] if '.' not in first and first != 'att' else [])]),
+                R(1, 1, [F(second, [R(0, 1, [F('Ee')])], attrs=[('att', sh.freeze(4))] if '.' not in second and second != 'att' else [])])]
+        if 'Fa' in (first, second):
+            yield ('T', M(F('Fa', [R(0, 1, [F('Fa.att', [R(1, 1, [F('Ee')])])]), R(0, 1, [F('Bb')])], attrs=[('att', sh.freeze(1))])))
+        else:
+            yield ('T', M(F('Fa', kids)))
     for t in families.deep_trees():
         yield ('K', cm.on_carrier([t]))
     # typed features / feature cardinalities: full product on small carriers
@@ -181,6 +189,22 @@ def _oracle(fm, model, route):
             bad('get_feature_by_name', n)
     if fm.get_feature_by_name('NoSuchFeature') is not None or fm.get_feature_by_name('') is not None:
         bad('get_feature_by_name', 'unused name does not give None')
+    # names that are no feature of this model but look like one: other letter case, surrounding blanks,
+    # `feature.attribute`, a constraint name, an attribute name
+    probes = set()
+    for sf in sh.features(model):
+        n = sf[0]
+        if isinstance(n, str):
+            probes.update({n.lower(), n.upper(), n.swapcase(), ' ' + n, n + ' ', '"%s"' % n})
+            for (an, _av) in sf[5]:
+                probes.update({'%s.%s' % (n, an), an})
+    probes.update(cn for cn, _t in model[1])
+    for pn in sorted(probes - set(snames)):
+        got = fm.get_feature_by_name(pn)
+        engine.tick()
+        if got is not None:
+            bad('get_feature_by_name', {'asked for': pn, 'which is no feature; got': getattr(got, 'name', repr(got))})
+            break
     engine.tick(len(snames) + 2)
     # --- per feature tree queries
     for sf in sfeats:
